@@ -64,20 +64,26 @@ def trie(ob, tier):
             problems.append("a regex sibling is consulted although an exact child exists")
         if q([c.guard, applies])[0] != "unsat":
             problems.append("a regex sibling is consulted although the node's wildcard applies (regex host shadows the wildcard host)")
-    first_consult = min(c.seq for c in consult)
-    first = [r for r in rec if r.seq < first_consult]
-    if not first or q([get[0].guard, child, engine.NOT(engine.OR(*[r.guard for r in first]))])[0] != "unsat":
+    # recursive calls are classified by what their guard implies, not by block order (an
+    # early-return rewrite of the same logic orders the blocks differently)
+    exact = [r for r in rec if q([r.guard, engine.NOT(child)])[0] == "unsat"]
+    regex = [r for r in rec if r not in exact]
+    if not exact or q([get[0].guard, child, engine.NOT(engine.OR(*[r.guard for r in exact]))])[0] != "unsat":
         problems.append("an exact child does not take the lookup")
-    later = [r for r in rec if r.seq > first_consult]
-    for r in later:
+    for r in regex:
+        if q([r.guard, child])[0] != "unsat":
+            problems.append("the walk continues into a regex subtree although an exact child exists")
         if q([r.guard, applies])[0] != "unsat":
             problems.append("the walk continues into a regex subtree although the wildcard applies")
-        if match and q([r.guard, engine.NOT(engine.OR(*[engine.AND(m.guard, m.result.term) for m in match if m.seq < r.seq]))])[0] != "unsat":
+        if match and q([r.guard, engine.NOT(engine.OR(*[engine.AND(m.guard, m.result.term) for m in match]))])[0] != "unsat":
             problems.append("the walk continues into a regex subtree whose pattern did not match")
-    ms = sorted(match, key=lambda e: e.seq)
-    for a, b in zip(ms, ms[1:]):
-        if q([b.guard, a.guard, a.result.term])[0] != "unsat":
-            problems.append("a later regex sibling is consulted after an earlier one matched")
+
+    def it(e):
+        return e.node[1][-1][1] if e.node[1] else 0
+    for a in match:
+        for b in match:
+            if it(a) < it(b) and q([b.guard, a.guard, a.result.term])[0] != "unsat":
+                problems.append("a later regex sibling is consulted after an earlier one matched")
     wit = [q([consult[0].guard])[0], q([rets[0].guard, applies, engine.NOT(child)])[0], q([get[0].guard, child])[0]]
     res["witness"] = "regex arm / wildcard arm / exact arm reachable: %s; %d regex consultation sites" % (wit, len(consult))
     res["witness_ok"] = all(w == "sat" for w in wit)
